@@ -406,7 +406,7 @@ class C06(PropertyCheck):
     lean_modules = ["QipVerif.Props.C06"]
     drivers = ["drv_spinchain", "drv_gates"]
     theorems = ["QipVerif.C06." + t for t in (
-        "tables_tie", "rot_calibrated", "iswap_calibrated", "sqrtiswap_calibrated",
+        "tables_tie", "rot_calibrated", "iswap_calibrated", "sqrtiswap_calibrated", "closed_forms_are_groups",
         "label_connects", "label_connects_iff", "C06_counterexample_label",
         "phase_accumulated", "end_to_end_partial")]
     technique = ("Lean 4: the compiler's formulas and tables regenerated from the source with ast into functions over an abstract "
